@@ -268,6 +268,54 @@ static void run_plain(void)
             return;
         }
     }
+    /* very long runs, reached by doubling: the summary merged with a copy of itself 40 times stands for up to
+     * 2^40 x n samples (the same values repeated). Count, extremes and mean stay; variance, skewness and kurtosis
+     * follow from the unchanged distribution and the new count. */
+    if (n >= 2 && !g_reuse && r.var > 0 && (double)sqrtl((long double)r.var) > 1e-7 * r.amax) {
+        struct cmb_datasummary big, cpy, out;
+        summarise(&big, x, n);
+        q_t p2 = 0, p3 = 0, p4 = 0;
+        for (int i = 0; i < n; i++) {
+            const q_t d = (q_t)x[i] - r.mean;
+            p2 += d * d;
+            p3 += d * d * d;
+            p4 += d * d * d * d;
+        }
+        p2 /= n;
+        p3 /= n;
+        p4 /= n;
+        const q_t g1 = p3 / (p2 * sqrtl((long double)p2)), g2 = p4 / (p2 * p2) - 3;
+        for (int dbl = 1; dbl <= 40; dbl++) {
+            cpy = big;
+            if (dbl % 2) {
+                cmb_datasummary_merge(&big, &big, &cpy);
+            }
+            else {
+                cmb_datasummary_merge(&out, &cpy, &big);
+                big = out;
+            }
+            vx_transition();
+            const q_t nn = (q_t)n * (q_t)(1ull << dbl);
+            const q_t var = p2 * nn / (nn - 1);
+            const q_t skew = sqrtl((long double)(nn * (nn - 1))) * g1 / (nn - 2);
+            const q_t kurt = (nn - 1) / ((nn - 2) * (nn - 3)) * ((nn + 1) * g2 + 6);
+            const char *bad = NULL;
+            double got = 0;
+            q_t want = 0;
+            if (cmb_datasummary_count(&big) != (uint64_t)n << dbl) { bad = "count"; got = (double)cmb_datasummary_count(&big); want = nn; }
+            else if (cmb_datasummary_min(&big) != r.min || cmb_datasummary_max(&big) != r.max) { bad = "minmax"; got = cmb_datasummary_min(&big); want = r.min; }
+            else if (!close_rel(cmb_datasummary_mean(&big), r.mean, 1e-9, 1e-9 * r.amax)) { bad = "mean"; got = cmb_datasummary_mean(&big); want = r.mean; }
+            else if (!close_rel(cmb_datasummary_variance(&big), var, 1e-7, 0)) { bad = "variance"; got = cmb_datasummary_variance(&big); want = var; }
+            else if (!close_rel(cmb_datasummary_skewness(&big), skew, 1e-6, 1e-6)) { bad = "skewness"; got = cmb_datasummary_skewness(&big); want = skew; }
+            else if (!close_rel(cmb_datasummary_kurtosis(&big), kurt, 1e-6, 1e-6)) { bad = "kurtosis"; got = cmb_datasummary_kurtosis(&big); want = kurt; }
+            if (bad) {
+                char rule[100];
+                snprintf(rule, sizeof rule, "long-run:%s:%s", bad, dbl <= 20 ? "up-to-2^20-fold" : dbl <= 32 ? "up-to-2^32-fold" : "beyond-2^32-fold");
+                FAIL(rule, "the %d samples repeated 2^%d times (by merging): %s is %.17g, exact %.17g", n, dbl, bad, got, (double)want);
+                return;
+            }
+        }
+    }
     /* every split, both orders, all three target aliasings */
     for (int k = 0; k <= n; k++) {
         for (int order = 0; order < 2; order++) {
